@@ -42,6 +42,7 @@ type c10RowJ struct {
 	T  string // T and U hold strings with blanks: value tuples over (u, t) that print alike are different tuples
 	U  string
 	W  time.Time // an instant; filters name it in another time zone, or with a monotonic clock reading
+	F  bool      // filters name it as true / false and as 1 / 0
 }
 
 var c10TimeBase = time.Date(2021, 3, 4, 5, 6, 7, 0, time.UTC)
@@ -63,7 +64,7 @@ type c10BadValuer struct{}
 
 func (c10BadValuer) Value() (driver.Value, error) { return nil, errors.New("c10: value rejected") }
 
-var c10ColID = map[string]int{"id": 0, "a": 1, "b": 2, "s": 3, "j": 4, "p": 5, "t": 6, "u": 7, "y": 8, "w": 9}
+var c10ColID = map[string]int{"id": 0, "a": 1, "b": 2, "s": 3, "j": 4, "p": 5, "t": 6, "u": 7, "y": 8, "w": 9, "f": 10}
 
 // c10Val: a filter value: payload and the Go representation it travels in
 type c10Val struct {
@@ -100,6 +101,13 @@ func (v c10Val) goValue() interface{} {
 		return c10BadValuer{}
 	case "sp":
 		return c10SpaceStrs[int(v.V)%len(c10SpaceStrs)]
+	case "bool":
+		return v.V != 0
+	case "boolint":
+		return int(v.V)
+	case "strbytes":
+		// a string column's value written as []byte
+		return []byte(fmt.Sprintf("s%d", v.V))
 	case "time":
 		return c10TimeBase.Add(time.Duration(v.V) * time.Second)
 	case "timez":
@@ -118,7 +126,7 @@ func (v c10Val) enc() interface{} {
 	if v.Rep == "nil" || v.Rep == "nilptr" {
 		return nil
 	}
-	ty := map[string]int{"int64": 0, "int": 1, "ptr": 2, "named": 3, "string": 4, "strptr": 5, "json": 6, "jsonptr": 7, "sp": 4, "bytes": 8, "time": 9, "timez": 9}[v.Rep]
+	ty := map[string]int{"int64": 0, "int": 1, "ptr": 2, "named": 3, "string": 4, "strptr": 5, "json": 6, "jsonptr": 7, "sp": 4, "bytes": 8, "time": 9, "timez": 9, "bool": 10, "boolint": 10, "strbytes": 4}[v.Rep]
 	if v.Rep == "time" || v.Rep == "timez" {
 		return map[string]interface{}{"ty": ty, "v": 200 + v.V}
 	}
@@ -192,20 +200,20 @@ func c10ModelIds(v interface{}) []int64 {
 func c10One(c *Ctx, m *Model, cs c10Case) {
 	rep := c.Rep
 	fdb, conn := newFakeDB()
-	fdb.createTable("rows", []string{"id", "a", "b", "s", "j", "t", "u", "w"}, []string{"id"})
+	fdb.createTable("rows", []string{"id", "a", "b", "s", "j", "t", "u", "w", "f"}, []string{"id"})
 	table := []interface{}{}
 	for _, r := range cs.Table {
-		for len(r) < 8 {
+		for len(r) < 9 {
 			r = append(r, 0)
 		}
 		ti, ui := int(r[5])%len(c10SpaceStrs), int(r[6])%len(c10SpaceStrs)
 		a := driverNull(r[1], r[1] < 0)
-		fdb.tables["rows"].Rows = append(fdb.tables["rows"].Rows, map[string]driverValue{"id": r[0], "a": a, "b": r[2], "s": fmt.Sprintf("s%d", r[3]), "j": []byte(fmt.Sprintf(`{"K":%d}`, r[4])), "t": c10SpaceStrs[ti], "u": c10SpaceStrs[ui], "w": c10TimeBase.Add(time.Duration(r[7]) * time.Second)})
+		fdb.tables["rows"].Rows = append(fdb.tables["rows"].Rows, map[string]driverValue{"id": r[0], "a": a, "b": r[2], "s": fmt.Sprintf("s%d", r[3]), "j": []byte(fmt.Sprintf(`{"K":%d}`, r[4])), "t": c10SpaceStrs[ti], "u": c10SpaceStrs[ui], "w": c10TimeBase.Add(time.Duration(r[7]) * time.Second), "f": r[8] % 2})
 		var am interface{}
 		if r[1] >= 0 {
 			am = r[1]
 		}
-		table = append(table, []interface{}{[]interface{}{0, r[0]}, []interface{}{1, am}, []interface{}{2, r[2]}, []interface{}{3, r[3]}, []interface{}{4, r[4]}, []interface{}{6, int64(100 + ti)}, []interface{}{7, int64(100 + ui)}, []interface{}{9, 200 + r[7]}})
+		table = append(table, []interface{}{[]interface{}{0, r[0]}, []interface{}{1, am}, []interface{}{2, r[2]}, []interface{}{3, r[3]}, []interface{}{4, r[4]}, []interface{}{6, int64(100 + ti)}, []interface{}{7, int64(100 + ui)}, []interface{}{9, 200 + r[7]}, []interface{}{10, r[8] % 2}})
 	}
 	schema := sqlgen.NewSchema()
 	schema.MustRegisterType("rows", sqlgen.UniqueId, c10RowJ{})
@@ -326,6 +334,13 @@ func c10GenFilterN(r *Rand, kinds int) []c10KV {
 	if kinds > 8 && r.Chance(0.15) {
 		// strings with blanks over one or two columns: ("a b", "c") and ("a", "b c") print alike
 		sp := func() c10Val { return c10Val{"sp", int64(r.Intn(len(c10SpaceStrs)))} }
+		if r.Chance(0.3) {
+			// a bool column named by true / false or by 1 / 0; a string column named by []byte
+			if r.Bool() {
+				return []c10KV{{"f", c10Val{[]string{"bool", "boolint"}[r.Intn(2)], int64(r.Intn(2))}}}
+			}
+			return []c10KV{{"s", c10Val{"strbytes", int64(r.Intn(3))}}}
+		}
 		if r.Chance(0.4) {
 			// an instant, in UTC or in another zone
 			return []c10KV{{"w", c10Val{[]string{"time", "timez"}[r.Intn(2)], int64(r.Intn(3))}}}
@@ -384,7 +399,7 @@ func runC10(c *Ctx) error {
 		return err
 	}
 	defer m.Close()
-	c.Rep.Rule = "random tables (0-8 rows, nullable pointer column, small value domains so that filters overlap) x sets of 1-5 filters (every 40th case 90-270) over different column sets (id / b / a / a+b / s / b+s / j (a JSON column, filtered by struct or pointer) / j+b / empty), filters sqlgen rejects (unknown column, a value whose Valuer fails) mixed in, strings with blanks over two columns (tuples that print alike), an instant named in another time zone, calls with an OrderBy option next to calls without options, a second table with a composite primary key (filters on one key column, QueryRow), equal filters repeated, values carried as int64, int, *int64, a named integer type, string, *string, nil and typed nil pointers; every filter is queried on its own and then all of them concurrently under batch.WithBatching on the same fake database; rows per call compared (the property), and compared with the Lean model's alone / dispatched"
+	c.Rep.Rule = "random tables (0-8 rows, nullable pointer column, small value domains so that filters overlap) x sets of 1-5 filters (every 40th case 90-270) over different column sets (id / b / a / a+b / s / b+s / j (a JSON column, filtered by struct or pointer) / j+b / empty), filters sqlgen rejects (unknown column, a value whose Valuer fails) mixed in, strings with blanks over two columns (tuples that print alike), an instant named in another time zone, a bool column named by 1 / 0, a string column named by []byte, calls with an OrderBy option next to calls without options, a second table with a composite primary key (filters on one key column, QueryRow), equal filters repeated, values carried as int64, int, *int64, a named integer type, string, *string, nil and typed nil pointers; every filter is queried on its own and then all of them concurrently under batch.WithBatching on the same fake database; rows per call compared (the property), and compared with the Lean model's alone / dispatched"
 	c.Rep.Assumptions = append(c.Rep.Assumptions,
 		"string comparison is case-sensitive in the fake database and in sqlgen's row tester (MySQL collations are not modelled)",
 		"whether concurrent calls end up in one batch is up to the batch timer; the number of statements is recorded")
@@ -412,6 +427,12 @@ func runC10(c *Ctx) error {
 		c10One(c, m, c10Case{Table: [][]int64{{1, 1, 0, 0, 0, 0, 0, 2}, {2, 1, 0, 0, 0, 0, 0, 1}}, Filters: [][]c10KV{{{"w", c10Val{"timez", 2}}}, {{"id", c10Val{"int64", 2}}}}})
 		c.Rep.Repros["C10-2"] = Repro{Fails: len(c.Rep.Failures) > before, Detail: "Filter{w: the instant of row 1 written in zone +02:00} next to Filter{id: 2} under batching"}
 	}
+	// the recorded finding C10-3: filter values of another Go type than the column's
+	{
+		before := len(c.Rep.Failures)
+		c10One(c, m, c10Case{Table: [][]int64{{1, 1, 0, 1, 0, 0, 0, 0, 1}, {2, 1, 0, 2, 0, 0, 0, 0, 0}}, Filters: [][]c10KV{{{"f", c10Val{"boolint", 1}}}, {{"s", c10Val{"strbytes", 2}}}, {{"id", c10Val{"int64", 2}}}}})
+		c.Rep.Repros["C10-3"] = Repro{Fails: len(c.Rep.Failures) > before, Detail: "Filter{f: 1} on a bool column and Filter{s: []byte(\"s2\")} on a string column under batching"}
+	}
 	// directed: value tuples that print alike - sqlgen orders the columns of a group by name, (t, u): ("a b","c") and
 	// ("a","b c") - in both arrival orders
 	for _, fs := range [][][]c10KV{
@@ -428,7 +449,7 @@ func runC10(c *Ctx) error {
 	for i := 0; i < n && !c.Rep.ShouldStop(); i++ {
 		var cs c10Case
 		for id := int64(1); id <= int64(r.Intn(9)); id++ {
-			cs.Table = append(cs.Table, []int64{id, int64(r.Intn(4)) - 1, int64(r.Intn(3)), int64(r.Intn(3)), int64(r.Intn(3)), int64(r.Intn(len(c10SpaceStrs))), int64(r.Intn(len(c10SpaceStrs))), int64(r.Intn(3))})
+			cs.Table = append(cs.Table, []int64{id, int64(r.Intn(4)) - 1, int64(r.Intn(3)), int64(r.Intn(3)), int64(r.Intn(3)), int64(r.Intn(len(c10SpaceStrs))), int64(r.Intn(len(c10SpaceStrs))), int64(r.Intn(3)), int64(r.Intn(2))})
 		}
 		k := 1 + r.Intn(5)
 		if i%40 == 7 {
